@@ -59,3 +59,8 @@ R.contracts["Node._receive_message"].ensures.append(
 R.contracts["Node._receive_message"].props.append("C19")
 R.region("Node._connect_to_peer", "Assign", 11, assigns={"connect_addr": "Any"},
          note="SCTP address list [(ip, port) for ip in peer.ip_addresses]: an opaque value only passed to connectx")
+
+R.contracts["Node._receive_message"].ensures.append(
+    Clause("a-request-answered-by-the-node-leaves-no-origin-record",
+           "implies(is_req(msg) and len(out(conn)) == old(len(out(conn))) + 1, "
+           "not (mkey(msg) in self._origin_waiting_answer))"))
